@@ -243,9 +243,16 @@ func getHashNumberRule(P *Program, R *Report) {
 	listOK := false
 	var notes []string
 	var lastElem ssa.Value // the counter: the last element appended to the hashed list
-	{
+	list := hc.Call.Args[0]
+	walkList := func(f func(v ssa.Value)) { f(list) }
+	if c, ok := list.(*ssa.Call); ok && !isCallTo(c, "builtin:append") {
+		// the list is assembled by an unexported helper: walk its (single) returned slice with its parameters bound
+		if g := staticCallee(c); g != nil && g.Blocks != nil && inModuleFn(g) && g.Signature.Results().Len() == 1 && len(returnsOf(g)) == 1 {
+			walkList = func(f func(v ssa.Value)) { bindCall(c, g, func() { f(returnsOf(g)[0].Results[0]) }) }
+		}
+	}
+	walkList(func(v ssa.Value) {
 		// walk the chain backwards from the hashed slice
-		v := hc.Call.Args[0]
 		var tail []string
 		for i := 0; i < 10; i++ {
 			switch x := v.(type) {
@@ -300,7 +307,7 @@ func getHashNumberRule(P *Program, R *Report) {
 				listOK = false
 			}
 		}
-	}
+	})
 	R.decide(rule, key+":list", "the hashed list is [a if non-nil, b if non-nil, index, counter starting at 0]", listOK, strings.Join(notes, " ; "), P.Pos(hc.Pos()))
 	// loop: k phi(0, k+256), condition k < bitlen
 	l := innermostLoopOf(hc.Block())
@@ -355,6 +362,14 @@ func getHashNumberRule(P *Program, R *Report) {
 			// counter: tmp[countIdx].Add(tmp[countIdx], 1)
 			d0, d1 := desc(c.Call.Args[0]), desc(c.Call.Args[1])
 			isCounter := d0 == d1 && strings.Contains(d0, "[len(")
+			// list[len(list)-1]: the last element of the hashed list
+			if ld, isLoad := c.Call.Args[0].(*ssa.UnOp); isLoad && d0 == d1 {
+				if ia, isIA := ld.X.(*ssa.IndexAddr); isIA && ia.X == list {
+					if a, ok := affineOf(ia.Index); ok && a.String() == parseAffine("len("+desc(list)+")-1").String() {
+						isCounter = true
+					}
+				}
+			}
 			if lastElem != nil && siteOf(c.Call.Args[0]) == siteOf(lastElem) && siteOf(c.Call.Args[1]) == siteOf(lastElem) {
 				isCounter = true // the counter object itself, kept in a local
 			}
